@@ -83,6 +83,28 @@ theorem PIPE_text_arith_min_full (t : AExp) (env : Env) :
     runTokens env (renderFull (.stmts [embed t])) = (env, numOutcome (evalA t)) :=
   ⟨PIPE_text_arith t env noExtra, PIPE_text_arith t env allExtra⟩
 
+/-- `parse_tokens` looks at tags and metadata only (positions matter to the error marker alone) -/
+theorem parse_view_congr {toks toks' : List Token} (h : toks.map PTok.ofToken = toks'.map PTok.ofToken) :
+    parse toks = parse toks' := by
+  have hl : toks.length = toks'.length := by simpa using congrArg List.length h
+  unfold parse
+  rw [h, hl]
+
+/-- **From the text.**  Any input text (over the lexer model's alphabet) that lexes to the tokens of
+    a rendering of the C01 expression — whatever its whitespace; C11's whitespace-insertion theorem
+    produces all of them from one — makes `execute` print `evalA`'s value / diagnose `evalA`'s error. -/
+theorem PIPE_text_arith_lexed (t : AExp) (env : Env) (extra : Ast → Bool) (s : List Char) (toks : List Token)
+    (hs : s.all Lexer.inAlphabet = true) (hlex : Lexer.tokenise s = .ok toks)
+    (hview : toks.map PTok.ofToken = rNat extra (.stmts [embed t])) :
+    runIn env s = (env, numOutcome (evalA t)) := by
+  have hp : parse toks = parse (renderWith extra (.stmts [embed t])) :=
+    parse_view_congr (by rw [hview, renderWith, toTokens, map_ofToken_toToken])
+  have h := PIPE_text_arith t env extra
+  simp only [runTokens] at h
+  simp only [runIn, hs, hlex, runTokens, hp, Bool.not_true, Bool.false_eq_true, if_false]
+  rw [C02_redundant_parens _ (wf_program_embed t) extra] at h ⊢
+  exact h
+
 /-- **Sessions.**  On the fragment of the C14 session model that does not use its abstract
     function / unit namespaces (literals, variables, `+`, `*`, assignments, `;`), evaluating the
     STATEMENTS node threads the bindings exactly like `Session.runInput`: same bindings afterwards
@@ -139,6 +161,15 @@ example : (evalA sampleA).toOption.map Num.render = some "q:-11/4" := by decide 
 example : (renderMin (.stmts [embed sampleA])).map (·.tag.render) =
     ["(", "number", "+", "number", ")", "*", "number", "/", "number", "-", "identifier", "(", "-", "number", ")"] := by decide
 example : (numOutcome (evalA sampleA)).render = "ok -2 3/4     (-2.75)\n" := by decide +kernel
+
+/-- `(1 + 2) * 3`, and the tokens of the text `( 1+2 ) *3` -/
+private def sampleB : AExp := .bin .mul (.bin .add (.lit 1) (.lit 2)) (.lit 3)
+private def toksB : List Token := [⟨.const "(", 0, 1, .none⟩, ⟨.num, 2, 3, .num (.int 1)⟩, ⟨.const "+", 3, 4, .none⟩,
+  ⟨.num, 4, 5, .num (.int 2)⟩, ⟨.const ")", 6, 7, .none⟩, ⟨.const "*", 8, 9, .none⟩, ⟨.num, 9, 10, .num (.int 3)⟩]
+set_option maxRecDepth 100000 in
+/-- hypotheses of `PIPE_text_arith_lexed` are satisfiable: a text with irregular whitespace -/
+example : Lexer.tokenise "( 1+2 ) *3".toList = .ok toksB ∧ toksB.map PTok.ofToken = rNat noExtra (.stmts [embed sampleB])
+    ∧ "( 1+2 ) *3".toList.all Lexer.inAlphabet = true := ⟨by rfl, by rfl, by decide +kernel⟩
 
 /-- hypotheses of `PIPE_statements` are satisfiable: `x = 2; y = x * 3; x + y` -/
 example : ∀ s ∈ [Session.Stmt.assign "x" (.lit 2), .assign "y" (.mul (.var "x") (.lit 3)), .expr (.add (.var "x") (.var "y"))],
